@@ -1009,17 +1009,6 @@ func classOf(k *concrete, r rres) string {
 
 // ---- block level --------------------------------------------------------------------------------
 
-func newChain(ep *epoch, pre world) (*core.BlockChain, *types.Block, aquadb.Database, error) {
-	db := aquadb.NewMemDatabase()
-	gen := &core.Genesis{Config: ep.cfg, GasLimit: genesisGasLimit, Difficulty: big.NewInt(131072), Alloc: pre.alloc()}
-	gblock, err := gen.Commit(db)
-	if err != nil {
-		return nil, nil, nil, err
-	}
-	bc, err := core.NewBlockChain(context.Background(), db, nil, ep.cfg, aquahash.NewFaker(), vm.Config{})
-	return bc, gblock, db, err
-}
-
 // evalBlock: the transaction inside block 1 (alone, or after a transaction that burns all but `pool` gas):
 // builder (GenerateChain), StateProcessor.Process and InsertChain for valid cases; a hand-assembled block,
 // Process and InsertChain for consensus-invalid ones.
@@ -1063,14 +1052,13 @@ func evalBlock(x *ctx, k *concrete) *verdict {
 			})
 			return bl[0], rc[0], nil
 		}
-		bc, g2, _, err := newChain(ep, k.pre)
+		// the importing chain shares the database image with the builder (the idiom of the repository's own tests):
+		// the builder only adds state trie nodes to it, never the block
+		bc, err := core.NewBlockChain(context.Background(), gdb, nil, ep.cfg, aquahash.NewFaker(), vm.Config{})
 		if err != nil {
 			ev.Broken("chain: %v", err)
 		}
 		defer bc.Stop()
-		if g2.Hash() != gblock.Hash() {
-			ev.Broken("genesis differs between two commits of the same spec")
-		}
 		proc := core.NewStateProcessor(ep.cfg, bc, aquahash.NewFaker())
 		headBefore := bc.CurrentBlock().Hash()
 
@@ -1209,7 +1197,7 @@ func eval(x *ctx, k *concrete) *verdict {
 //	tx    quick:    <= 2 deviations from the base point, plus the full gas x price x value x balance product
 //	tx    thorough: full product of data x gas x price x value x balance x nonce x position (coinbase base),
 //	                plus <= 2 deviations including the coinbase dimension
-//	block quick:    <= 1 deviation, plus gas x value x balance
+//	block quick:    <= 1 deviation, plus gas x balance and value x balance
 //	block thorough: <= 2 deviations, plus gas x price x value x balance
 func selected(c caseID, thorough bool) bool {
 	dev := c.deviations()
@@ -1220,7 +1208,7 @@ func selected(c caseID, thorough bool) bool {
 	case c.Level == "tx":
 		return c.Cb == 0 || dev <= 2
 	case !thorough:
-		return dev <= 1 || (econ && c.Price == 0)
+		return dev <= 1 || (econ && c.Price == 0 && (c.Value == 0 || c.Gas == 0))
 	default:
 		return dev <= 2 || econ
 	}
